@@ -364,8 +364,22 @@ func baseNamed(path []seg, name string) (baseMap, bool) {
 // minimiseSet simplifies a failing case greedily (context, value, path, base).
 func minimiseSet(sc setCase, vals []sval) setCase {
 	cur := sc
-	try := func(x setCase) bool {
-		if f, _ := execSet(x); f != nil {
+	try := func(x setCase) bool { f, _ := execSet(x); return f != nil }
+	for round := 0; round < 3; round++ {
+		before := fmt.Sprintf("%v", cur)
+		minimiseSetRound(&cur, try, vals)
+		if fmt.Sprintf("%v", cur) == before {
+			break
+		}
+	}
+	return cur
+}
+
+func minimiseSetRound(curp *setCase, try func(setCase) bool, vals []sval) {
+	cur := *curp
+	defer func() { *curp = cur }()
+	tryc := func(x setCase) bool {
+		if try(x) {
 			cur = x
 			return true
 		}
@@ -374,7 +388,7 @@ func minimiseSet(sc setCase, vals []sval) setCase {
 	if cur.Ctx != 0 {
 		x := cur
 		x.Ctx = 0
-		try(x)
+		tryc(x)
 	}
 	for _, v := range vals {
 		if v.Name == cur.Val.Name {
@@ -382,7 +396,7 @@ func minimiseSet(sc setCase, vals []sval) setCase {
 		}
 		x := cur
 		x.Val = v
-		if try(x) {
+		if tryc(x) {
 			break
 		}
 	}
@@ -405,7 +419,7 @@ func minimiseSet(sc setCase, vals []sval) setCase {
 				continue // a path starts with a key
 			}
 			p := append(append([]seg{}, cur.Path[:i]...), cur.Path[i+1:]...)
-			if x, ok := withPath(p); ok && try(x) {
+			if x, ok := withPath(p); ok && tryc(x) {
 				changed = true
 				break
 			}
@@ -421,7 +435,7 @@ func minimiseSet(sc setCase, vals []sval) setCase {
 			continue
 		}
 		if x, ok := withPath(p); ok {
-			try(x)
+			tryc(x)
 		}
 	}
 	for _, b := range basesFor(cur.Path) {
@@ -430,9 +444,8 @@ func minimiseSet(sc setCase, vals []sval) setCase {
 		}
 		x := cur
 		x.Base = b
-		if try(x) {
+		if tryc(x) {
 			break
 		}
 	}
-	return cur
 }
